@@ -310,9 +310,9 @@ Proof. unfold py_astring_char, is_astring_char, is_atom_char, in_rng. lia. Qed.
 Lemma many1_quoted_none b rest : many1 is_astring_char (print_quoted b ++ rest) = None.
 Proof. reflexivity. Qed.
 
-(* mailbox_bytes_astring, first half: AString.__bytes__ of printable bytes *)
+(* mailbox_bytes_astring, first half: AString.__bytes__ of TEXT-CHAR bytes *)
 Lemma astring_print b rest :
-  forallb printable b = true -> nohead is_astring_char rest ->
+  forallb is_text_char b = true -> nohead is_astring_char rest ->
   astring (print_astring b ++ rest) = Some rest.
 Proof.
   intros Hp Hn. unfold print_astring. destruct b as [|c b].
@@ -321,8 +321,7 @@ Proof.
     + unfold astring. rewrite many1_app; [reflexivity|reflexivity| |exact Hn].
       eapply forallb_impl; [exact py_astring_char_ok|exact E].
     + unfold astring. rewrite many1_quoted_none.
-      unfold string_. rewrite quoted_print; [reflexivity|].
-      eapply forallb_impl; [exact printable_text|exact Hp].
+      unfold string_. rewrite quoted_print; [reflexivity|exact Hp].
 Qed.
 
 (* mailbox_bytes_astring: the serialised form of any mailbox name is an astring *)
@@ -331,5 +330,6 @@ Lemma mailbox_print name rest :
 Proof.
   intro Hn. unfold mailbox, print_mailbox. destruct (is_inbox name).
   - unfold astring. rewrite many1_app; [reflexivity|reflexivity|reflexivity|exact Hn].
-  - apply astring_print; [apply modutf7_encode_printable|exact Hn].
+  - apply astring_print; [|exact Hn].
+    eapply forallb_impl; [exact printable_text|apply modutf7_encode_printable].
 Qed.
